@@ -184,6 +184,7 @@ pub fn run(ctx: &mut Ctx) {
         let other_before = table_names(&mut x);
         let mut want: Vec<Rec> = recs.clone();
         want.sort();
+        let src_want = want.clone();
         let label;
         let mut file_text: Option<String> = None;
         let import_result;
@@ -227,14 +228,29 @@ pub fn run(ctx: &mut Ctx) {
                 // an empty unquoted CSV field has no agreed meaning (NULL or ''): accept both
                 out
             } else {
+                // some records leave out one of the text keys (the column then stays NULL): the key
+                // sets differ from record to record, also between records with equally many keys
+                let omit: Vec<u8> = recs.iter().map(|_| if family == 1 && rng.chance(1, 3) { 1 + rng.below(2) as u8 } else { 0 }).collect();
+                for (r, o) in want.iter_mut().zip(omit.iter()) {
+                    // (want is sorted by id like recs, ids are 1..=n)
+                    match o {
+                        1 => r.1 = None,
+                        2 => r.2 = None,
+                        _ => {}
+                    }
+                }
                 let arr: Vec<serde_json::Value> = recs
                     .iter()
                     .enumerate()
                     .map(|(i, r)| {
                         let mut m = serde_json::Map::new();
                         m.insert("id".into(), json!(r.0));
-                        m.insert("s".into(), r.1.clone().map_or(serde_json::Value::Null, |v| json!(v)));
-                        m.insert("t".into(), r.2.clone().map_or(serde_json::Value::Null, |v| json!(v)));
+                        if omit[i] != 1 {
+                            m.insert("s".into(), r.1.clone().map_or(serde_json::Value::Null, |v| json!(v)));
+                        }
+                        if omit[i] != 2 {
+                            m.insert("t".into(), r.2.clone().map_or(serde_json::Value::Null, |v| json!(v)));
+                        }
                         m.insert("n".into(), r.3.map_or(serde_json::Value::Null, |v| json!(v)));
                         if family == 2 && i > 0 && rng.chance(1, 3) {
                             // a hostile key in a later object (only the first object's keys are validated)
@@ -266,7 +282,7 @@ pub fn run(ctx: &mut Ctx) {
             fail(ctx, format!("{}:other-table-changed", label), json!("canary row missing or duplicated"), file_text.clone());
             continue;
         }
-        if read_table(&mut x, "SRC").as_ref() != Some(&want) {
+        if read_table(&mut x, "SRC").as_ref() != Some(&src_want) {
             fail(ctx, format!("{}:source-table-changed", label), json!(null), file_text.clone());
             continue;
         }
